@@ -1,9 +1,10 @@
 import TruthModel.Model.LowerSem
+import TruthModel.Lemmas.LowerJumps
 /-
 C02 — compiling expressions and statements preserves what the script does.
 
-Proved (for every intrinsic table `I`, every store, every difficulty, every fuel, every value of the
-temp counter):
+Proved (for every intrinsic table `I`, every store of integers, every difficulty, every fuel, every value of
+the temp counter and of the label counter):
 
 * `alternatives_sound`       the integer fallbacks of `discover_alternatives` compute what the operator
                              computes: `-1 * x = -x`, `-1 - x = ~x` over `Int32` (all 2^32 values), and
@@ -12,15 +13,41 @@ temp counter):
                              variable below the temp counter (so no register, no user local, no live
                              temporary), logs nothing, keeps the time.
 * `lowerAssign_sound_partial` the same for `v = e` and `v op= e` as statements of the VM.
-* `lowerCall_sound_partial`  an instruction call with arbitrarily complex arguments logs the same opcode
-                             and the same argument values as the source call and changes no variable
-                             below the temp counter.
+* `lowerCall_sound_partial`  an instruction call with arbitrarily complex arguments logs the same opcode and
+                             the same argument values as the source call and changes no variable below the
+                             temp counter.
+* `lowerSetJ_eq`             the model with labels and jumps (`Model/LowerJumps.lean`, the one compared with the
+                             real `Lowerer` on bodies with jumps) emits for integer expressions exactly what
+                             the straight-line model (`Model/Lower.lean`) emits: the theorems above hold for it.
+* `lowerCondJump_sound`      `if (c) goto L @ t` / `unless (c) goto L @ t` for EVERY integer condition - the six
+                             comparisons of operands of any complexity, `&&` `||` `!` nested at will, any
+                             other integer expression (`e != 0`), constants - and for the counting conditions
+                             `--x`, `--x != 0`, `--x > 0`; under every intrinsic table in which the lowering
+                             succeeds (a conditional jump per comparison, or only for some and the cmp + jmp
+                             pair for the others, or the pair only; either counting jump): the emitted fragment
+                             is left either by a jump to `L` or at its end, by the jump IFF the source
+                             statement jumps (`unless`: through `negate_comparison` / the skip label); every
+                             variable below the temp counter ends as the source leaves it (`--x` decrements
+                             `x` exactly once, wrapping); nothing is logged; the time is kept; the labels of the
+                             fragment are fresh and pairwise different.
+* `lowerCondJump_reach`      the same inside any lowered stream `pre ++ code ++ post`, for the program-counter
+                             machine `execJ` (through `Lower.execFrag_reach`, the generic link between the
+                             structural execution of a fragment and the machine).
+* `lowerTernary_sound`       `v = c ? l : r` (integer condition of any shape, integer branches of any
+                             complexity): the fragment runs to its end, `v` gets the value of the branch the
+                             source selects - the other branch need not evaluate -, nothing else below the temp
+                             counter changes, nothing is logged, the time is kept.
+* `nan_negation_witness`     negated FLOAT comparisons are unsound on NaN: `unless (A > B) goto L` with NaN
+                             operands jumps in the source, the emitted `if (A <= B) goto L` does not (the open
+                             finding `float-comparison-negated-by-compiler-sees-nan`).
 
 "partial": the proved fragment is integer expressions (literals, registers and locals read as `int`,
 `-x` `!x` `~x`, all 19 binary operators), from stores holding integers, and the lowered stream before
 register assignment (temporaries are still variables).  The destination-reuse guard `expr_uses_var` is
 used exactly where expected (`hb_same` in `binop_case`); removing it from the model breaks that step.
-`C02_full` states the whole property; what is missing is listed there.
+`C02_full`, `lowerCondJump_full`, `lowerTernary_full` state the whole property; what is missing is listed there
+(floats, casts, difficulty switches, ternaries nested in operands / conditions / branches, register
+assignment, whole bodies with loops).
 -/
 namespace TruthModel.C02
 open TruthModel TruthModel.Regs TruthModel.Lower
@@ -1086,9 +1113,13 @@ sigils (needs "static type = dynamic type" for stores typed like their variables
 parameters); (2) difficulty switches in expressions (`lowerSwitch`, and `elaborate_diff_switches` - which
 the search shows to be WRONG for a switch nested in a switch case, see the evidence); (3) the composition
 with C05: renaming locals to registers preserves `exec` because `Regs.assign` never hands a live or
-mentioned register out (`C05.assign_inv`); (4) everything with labels - conditional and counting jumps,
-`&&` `||` `!` in conditions, negated comparisons (unsound on NaN, see the evidence), ternary, loops, `times` -
-which the model does not contain at all; these are covered by the VM-against-VM search only. -/
+mentioned register out (`C05.assign_inv`); (4) statements with labels: ONE conditional / counting jump and ONE
+ternary assignment over integers are proved below (`lowerCondJump_sound`, `lowerTernary_sound`, model
+`Model/LowerJumps.lean`, compared with the real `Lowerer`); whole bodies in which jumps go backwards (loops,
+`times`, which `desugar_blocks` produces - C06) are executed by `execJ` but no theorem composes the statements
+of a body yet; float conditions (negated comparisons are unsound on NaN, `nan_negation_witness`) and
+ternaries nested inside operands are stated in `lowerCondJump_full` / `lowerTernary_full`; all of these are
+covered by the VM-against-VM search. -/
 def C02_full : Prop :=
   ∀ (F : FloatOps) (I : Intrinsics) (db ab : Nat) (h : Hooks) (firstTemp : Nat) (body : List SStmt)
     (code : List LStmt) (res : Regs.Result) (diff : Nat) (σ : Store) (msrc : Machine),
@@ -1140,5 +1171,1221 @@ example : codeLen (lowerAssign fallbacksOnly 255 0 100 255 rA .set sampleExpr) =
 example : codeLen (lowerAssign fallbacksOnly 255 0 100 255 rA .mul sampleExpr) = some (7, 101) := by decide +kernel
 example : codeLen (lowerCall fallbacksOnly 255 0 100 255 200 [sampleExpr, .var rB, .unop .bnot (.var rA)]) =
     some (10, 102) := by decide +kernel
+
+/-! ## 10. the model with jumps restricts to the straight-line model -/
+
+def liftRes (lg : Nat) : Outcome (List LStmt × Gen) → Outcome (List JStmt × Gen × Nat)
+  | .ok (c, g) => .ok (liftCode c, g, lg)
+  | .err x => .err x
+  | .panic x => .panic x
+
+def liftOp (lg : Nat) : Outcome Operand → Outcome OperandJ
+  | .ok O => .ok ⟨liftCode O.code, O.atom, O.ty, O.gen, lg, O.free⟩
+  | .err x => .err x
+  | .panic x => .panic x
+
+/-- on integer expressions the four functions of `Model/LowerJumps.lean` emit what those of `Model/Lower.lean`
+emit, and allocate no label -/
+def BridgeAt (I : JIntrinsics) (db ab fuel : Nat) : Prop :=
+  (∀ g lg t mask v e, IntOnly e →
+    lowerSetJ I db ab fuel g lg t mask v e = liftRes lg (lowerSet I.base db ab fuel g mask v e)) ∧
+  (∀ g lg t mask v ty guard e, IntOnly e →
+    lowerOperandJ I db ab fuel g lg t mask v ty guard e = liftOp lg (lowerOperand I.base db ab fuel g mask v ty guard e)) ∧
+  (∀ g lg t mask v op a b, IntOnly a → IntOnly b →
+    lowerBinopJ I db ab fuel g lg t mask v op a b = liftRes lg (lowerBinop I.base db ab fuel g mask v op a b)) ∧
+  (∀ g lg t mask v op b, IntOnly b →
+    lowerUnopJ I db ab fuel g lg t mask v op b = liftRes lg (lowerUnop I.base db ab fuel g mask v op b))
+
+theorem liftCode_append (a b : List LStmt) : liftCode (a ++ b) = liftCode a ++ liftCode b := by
+  simp [liftCode]
+
+theorem bridge_set {I : JIntrinsics} {db ab fuel : Nat} (ih : BridgeAt I db ab fuel) (g lg : Nat) (t : Int) (mask : Nat)
+    (v : VarRef) (e : SExpr) (hi : IntOnly e) :
+    lowerSetJ I db ab (fuel + 1) g lg t mask v e = liftRes lg (lowerSet I.base db ab (fuel + 1) g mask v e) := by
+  simp only [lowerSetJ, lowerSet]
+  cases hsim : e.simple? with
+  | some a =>
+    simp only []
+    cases lowerAssignAtom I.base mask v .set a <;> rfl
+  | none =>
+    obtain ⟨ht1, ht2, ht3⟩ := intOnly_temp hi
+    simp only [ht1, ht2, ht3, ne_eq, not_true_eq_false, ite_false]
+    cases e with
+    | binop op a b => exact ih.2.2.1 g lg t mask v op a b hi.1 hi.2
+    | unop op b => exact ih.2.2.2 g lg t mask v op b hi.2
+    | litI _ => simp [SExpr.simple?] at hsim
+    | var _ => simp [SExpr.simple?] at hsim
+    | litF _ => exact absurd hi (by simp [IntOnly])
+    | ternary _ _ _ => exact absurd hi (by simp [IntOnly])
+    | switch _ => exact absurd hi (by simp [IntOnly])
+    | omitted => exact absurd hi (by simp [IntOnly])
+
+theorem bridge_operand {I : JIntrinsics} {db ab fuel : Nat} (ih : BridgeAt I db ab fuel) (g lg : Nat) (t : Int) (mask : Nat)
+    (v : VarRef) (ty : RTy) (guard : Bool) (e : SExpr) (hi : IntOnly e) :
+    lowerOperandJ I db ab (fuel + 1) g lg t mask v ty guard e =
+      liftOp lg (lowerOperand I.base db ab (fuel + 1) g mask v ty guard e) := by
+  simp only [lowerOperandJ, lowerOperand]
+  cases hsim : e.simple? with
+  | some a => rfl
+  | none =>
+    obtain ⟨ht1, ht2, ht3⟩ := intOnly_temp hi
+    simp only [ht1, ht2, ht3]
+    by_cases hc : (RTy.int = ty ∧ True ∧ guard = true)
+    · rw [if_pos hc, if_pos hc]
+      rw [ih.1 g lg t mask v e hi]
+      cases lowerSet I.base db ab fuel g mask v e with
+      | ok r => obtain ⟨c, g1⟩ := r; rfl
+      | err x => rfl
+      | panic x => rfl
+    · rw [if_neg hc, if_neg hc]
+      rw [ih.1 (g + 1) lg t mask (tmpVar g .int) e hi]
+      cases lowerSet I.base db ab fuel (g + 1) mask (tmpVar g .int) e with
+      | ok r => obtain ⟨c, g1⟩ := r; rfl
+      | err x => rfl
+      | panic x => rfl
+
+theorem bridge_binop {I : JIntrinsics} {db ab fuel : Nat} (ih : BridgeAt I db ab fuel) (g lg : Nat) (t : Int) (mask : Nat)
+    (v : VarRef) (op : BinOp) (a b : SExpr) (hia : IntOnly a) (hib : IntOnly b) :
+    lowerBinopJ I db ab (fuel + 1) g lg t mask v op a b = liftRes lg (lowerBinop I.base db ab (fuel + 1) g mask v op a b) := by
+  simp only [lowerBinopJ, lowerBinop]
+  rw [ih.2.1 g lg t mask v _ _ a hia]
+  cases hA : lowerOperand I.base db ab fuel g mask v (binopTy op a.ty) (!b.uses v.name) a with
+  | err x => rfl
+  | panic x => rfl
+  | ok A =>
+    simp only [liftOp]
+    rw [ih.2.1 A.gen lg t mask v _ _ b hib]
+    cases hB : lowerOperand I.base db ab fuel A.gen mask v (binopTy op a.ty) (!operandUses a v.name A.free) b with
+    | err x => rfl
+    | panic x => rfl
+    | ok B =>
+      simp only [liftOp]
+      cases hC : lowerBinopAtom I.base mask v op A.ty A.atom B.atom with
+      | err x => rfl
+      | panic x => rfl
+      | ok c => simp [liftRes, liftCode, freeOfJ]
+
+theorem bridge_unop {I : JIntrinsics} {db ab fuel : Nat} (ih : BridgeAt I db ab fuel) (g lg : Nat) (t : Int) (mask : Nat)
+    (v : VarRef) (op : UnOp) (b : SExpr) (hib : IntOnly b) :
+    lowerUnopJ I db ab (fuel + 1) g lg t mask v op b = liftRes lg (lowerUnop I.base db ab (fuel + 1) g mask v op b) := by
+  simp only [lowerUnopJ, lowerUnop]
+  rw [ih.2.1 g lg t mask v _ _ b hib]
+  cases hB : lowerOperand I.base db ab fuel g mask v (unopTy op b.ty) true b with
+  | err x => rfl
+  | panic x => rfl
+  | ok B =>
+    simp only [liftOp]
+    cases hC : lowerUnopAtom I.base mask v op B.ty B.atom with
+    | err x => rfl
+    | panic x => rfl
+    | ok c => simp [liftRes, liftCode, freeOfJ]
+
+theorem bridgeAt (I : JIntrinsics) (db ab : Nat) : ∀ fuel, BridgeAt I db ab fuel
+  | 0 => by
+    refine ⟨?_, ?_, ?_, ?_⟩ <;> intros <;>
+      simp [lowerSetJ, lowerOperandJ, lowerBinopJ, lowerUnopJ, lowerSet, lowerOperand, lowerBinop, lowerUnop, liftRes, liftOp]
+  | fuel + 1 => by
+    have ih := bridgeAt I db ab fuel
+    exact ⟨bridge_set ih, bridge_operand ih, bridge_binop ih, bridge_unop ih⟩
+
+/-- **lowerSetJ_eq**: on integer expressions `Model/Lower.lean` is the restriction of `Model/LowerJumps.lean` -/
+theorem lowerSetJ_eq (I : JIntrinsics) (db ab fuel g lg : Nat) (t : Int) (mask : Nat) (v : VarRef) (e : SExpr)
+    (hi : IntOnly e) :
+    lowerSetJ I db ab fuel g lg t mask v e = liftRes lg (lowerSet I.base db ab fuel g mask v e) :=
+  (bridgeAt I db ab fuel).1 g lg t mask v e hi
+
+
+/-! ## 11. conditional jumps: primitives and operands -/
+
+theorem b2i_ne_zero (b : Bool) : (b2i b != 0) = b := by cases b <;> rfl
+
+theorem dec_le_lt (x y : Int32) : decide (y ≤ x) = !decide (x < y) := by
+  by_cases h : x < y
+  · have : ¬ y ≤ x := Int32.not_le.mpr h
+    simp [h, this]
+  · have : y ≤ x := Int32.not_lt.mp h
+    simp [h, this]
+
+theorem dec_lt_le (x y : Int32) : decide (y < x) = !decide (x ≤ y) := by
+  rw [dec_le_lt y x]; simp
+
+/-- the comparison the compiler substitutes for `unless` yields the opposite truth value (integers) -/
+theorem negateCmp_int (op op' : BinOp) (x y : Int32) (h : negateCmp op = some op') :
+    ∃ r r', binopInt op x y = .ok (.int r) ∧ binopInt op' x y = .ok (.int r') ∧ (r' != 0) = !(r != 0) := by
+  cases op <;> simp only [negateCmp, Option.some.injEq, reduceCtorEq] at h <;> subst h <;>
+    refine ⟨_, _, rfl, rfl, ?_⟩ <;> simp only [b2i_ne_zero]
+  · simp [bne]
+  · simp [bne]
+  · exact dec_le_lt x y
+  · exact dec_lt_le x y
+  · exact dec_le_lt y x
+  · exact dec_lt_le y x
+
+theorem isComparison_negate {op : BinOp} (h : isComparison op = true) : ∃ op', negateCmp op = some op' ∧ isComparison op' = true := by
+  cases op <;> simp [isComparison] at h <;> exact ⟨_, rfl, rfl⟩
+
+theorem isComparison_int {op : BinOp} (h : isComparison op = true) (x y : Int32) : ∃ r, binopInt op x y = .ok (.int r) := by
+  cases op <;> simp [isComparison] at h <;> exact ⟨_, rfl⟩
+
+/-- how a fragment is left by a conditional jump -/
+def exitIf (b : Bool) (tgt : Goto) : Exit := if b then .jump tgt.l tgt.time else .fall
+
+/-- the single conditional jump and the cmp + jmp pair, on integer atoms -/
+theorem exec_condPrim (F : FloatOps) (diff mask : Nat) (op : BinOp) (a b : Arg) (tgt : Goto) (s : JM) (x y r : Int32)
+    (hm : maskOn mask diff = true) (hs : IntStore s.m.store) (ha : IntAtom a) (hb : IntAtom b)
+    (hx : atomValue s.m.store a = .int x) (hy : atomValue s.m.store b = .int y)
+    (hr : binopInt op x y = .ok (.int r)) :
+    execFrag F diff .run [.condJmp mask op .int a b tgt.l tgt.time] s = .ok (exitIf (r != 0) tgt, s) ∧
+    execFrag F diff .run [.cmp mask .int a b, .cmpJmp mask op tgt.l tgt.time] s =
+      .ok (exitIf (r != 0) tgt, { s with cmp := some (.int x, .int y) }) := by
+  have hra := readArg_intAtom F diff hs ha
+  have hrb := readArg_intAtom F diff hs hb
+  rw [hx] at hra; rw [hy] at hrb
+  by_cases hz : r = 0
+  · subst hz
+    constructor <;>
+      simp [execFrag, stepJ, hm, hra, hrb, cmpFlow, binop, hr, exitIf]
+  · have hnz : (r != 0) = true := by simp [bne, hz]
+    constructor <;>
+      simp [execFrag, stepJ, hm, hra, hrb, cmpFlow, binop, hr, exitIf, hz, hnz]
+
+/-- `lower_cond_jump_intrinsic` on integer atoms: leaves by the jump iff `if`/`unless` says so -/
+theorem exec_condJmpAtom (F : FloatOps) (I : JIntrinsics) (diff mask : Nat) (kw : Kw) (op : BinOp) (a b : Arg) (tgt : Goto)
+    (c : List JStmt) (s : JM) (x y r : Int32)
+    (hm : maskOn mask diff = true) (hs : IntStore s.m.store) (ha : IntAtom a) (hb : IntAtom b)
+    (hx : atomValue s.m.store a = .int x) (hy : atomValue s.m.store b = .int y)
+    (hr : binopInt op x y = .ok (.int r))
+    (h : condJmpAtom I mask kw op .int .int a b tgt = .ok c) :
+    labelsOf c = [] ∧ ∃ cmp', execFrag F diff .run c s = .ok (exitIf (kw.takes (r != 0)) tgt, ⟨s.m, cmp'⟩) := by
+  -- the operator of the emitted jump and its value
+  have key : ∀ op' r', binopInt op' x y = .ok (.int r') → (r' != 0) = kw.takes (r != 0) →
+      (match I.condAlt op' .int with
+        | none => (.err errUnsupported : Outcome (List JStmt))
+        | some .intrinsic => .ok [.condJmp mask op' .int a b tgt.l tgt.time]
+        | some .twoPart => .ok [.cmp mask .int a b, .cmpJmp mask op' tgt.l tgt.time]) = .ok c →
+      labelsOf c = [] ∧ ∃ cmp', execFrag F diff .run c s = .ok (exitIf (kw.takes (r != 0)) tgt, ⟨s.m, cmp'⟩) := by
+    intro op' r' hr' htr hc
+    obtain ⟨h1, h2⟩ := exec_condPrim F diff mask op' a b tgt s x y r' hm hs ha hb hx hy hr'
+    rw [htr] at h1 h2
+    cases halt : I.condAlt op' .int with
+    | none => simp [halt] at hc
+    | some alt =>
+      cases alt with
+      | intrinsic =>
+        simp only [halt, Outcome.ok.injEq] at hc; subst hc
+        exact ⟨rfl, s.cmp, h1⟩
+      | twoPart =>
+        simp only [halt, Outcome.ok.injEq] at hc; subst hc
+        exact ⟨rfl, _, h2⟩
+  unfold condJmpAtom at h
+  cases kw with
+  | kif =>
+    simp only [ne_eq, not_true_eq_false, ite_false] at h
+    exact key op r hr (by simp [Kw.takes]) h
+  | kunless =>
+    simp only [] at h
+    cases hneg : negateCmp op with
+    | none => simp [hneg] at h
+    | some op' =>
+      simp only [hneg, ne_eq, not_true_eq_false, ite_false] at h
+      obtain ⟨r0, r', h0, h', hrel⟩ := negateCmp_int op op' x y hneg
+      rw [hr] at h0
+      simp only [Outcome.ok.injEq, Value.int.injEq] at h0
+      subst h0
+      exact key op' r' h' (by simp [Kw.takes, hrel]) h
+
+/-- what the lowering of one operand of a comparison guarantees -/
+structure TSpec (F : FloatOps) (diff g lg : Nat) (s : JM) (O : OperandJ) (val : Value) : Prop where
+  mono : g ≤ O.gen
+  lgen : O.lgen = lg
+  atom : IntAtom O.atom
+  tyInt : O.ty = .int
+  labels : labelsOf O.code = []
+  atomBelow : ∀ y, argVar O.atom = some y → below O.gen y
+  run : ∃ m', execFrag F diff .run O.code s = .ok (.fall, ⟨m', s.cmp⟩) ∧ atomValue m'.store O.atom = val ∧
+    (∀ x, below g x → m'.store x = s.m.store x) ∧ m'.log = s.m.log ∧ m'.time = s.m.time ∧ IntStore m'.store
+
+theorem temp_sound (F : FloatOps) (I : JIntrinsics) (db ab diff fuel g lg : Nat) (t : Int) (mask : Nat) (e : SExpr)
+    (O : OperandJ) (s : JM) (val : Value)
+    (hm : maskOn mask diff = true) (hi : IntOnly e) (hb : exprBelow g e) (hs : IntStore s.m.store)
+    (hev : evalS F diff s.m.store e = .ok val)
+    (h : lowerTempJ I db ab fuel g lg t mask e = .ok O) : TSpec F diff g lg s O val := by
+  cases fuel with
+  | zero => simp [lowerTempJ] at h
+  | succ fuel =>
+    simp only [lowerTempJ] at h
+    cases hsim : e.simple? with
+    | some a =>
+      simp only [hsim, Outcome.ok.injEq] at h
+      subst h
+      obtain ⟨hatom, hval, huse⟩ := simple_spec F diff hi hsim
+      have hv := hval s.m.store hs
+      rw [hev] at hv
+      simp only [Outcome.ok.injEq] at hv
+      exact ⟨Nat.le_refl _, rfl, hatom, intOnly_simpleTy hi, rfl, fun y hy => uses_below hb (huse y hy),
+        ⟨s.m, rfl, hv.symm, fun _ _ => rfl, rfl, rfl, hs⟩⟩
+    | none =>
+      simp only [hsim] at h
+      obtain ⟨ht1, ht2, ht3⟩ := intOnly_temp hi
+      simp only [ht1, ht2, ht3] at h
+      rw [lowerSetJ_eq I db ab fuel (g + 1) lg t mask (tmpVar g .int) e hi] at h
+      cases hl : lowerSet I.base db ab fuel (g + 1) mask (tmpVar g .int) e with
+      | err x => simp [hl, liftRes] at h
+      | panic x => simp [hl, liftRes] at h
+      | ok r =>
+        obtain ⟨c, g1⟩ := r
+        simp only [hl, liftRes, Outcome.ok.injEq] at h
+        subst h
+        obtain ⟨hmono, m', hex, hval, hframe, hlog, htime, hint⟩ :=
+          lowerSet_sound F I.base db ab diff fuel (g + 1) mask (tmpVar g .int) e c g1 s.m val
+            ⟨hm, rfl, Nat.lt_succ_self g, hi, exprBelow_mono (Nat.le_succ g) hb, hs, hev⟩ hl
+        refine ⟨Nat.le_trans (Nat.le_succ g) hmono, rfl, .loc g, rfl, ?_, ?_, ⟨m', ?_, hval, ?_, hlog, htime, hint⟩⟩
+        · simp [labelsOf, labelsOf_lift]
+        · intro y hy
+          simp only [argVar, Option.some.injEq] at hy; subst hy
+          exact Nat.lt_of_lt_of_le (Nat.lt_succ_self g) hmono
+        · simp only [execFrag, stepJ, execStmt]
+          exact execFrag_lift F diff s.cmp c s.m m' hex
+        · intro x hx
+          exact hframe x (ne_of_below hx) (below_mono (Nat.le_succ g) hx)
+
+
+/-! ## 12. conditional jumps -/
+
+/-- what the code of a conditional jump guarantees: it is left by the jump to the target iff `taken`, else at
+its end; variables below the temp counter, log and time are as before; its labels are fresh and distinct -/
+structure CondSpec (F : FloatOps) (diff g lg : Nat) (tgt : Goto) (taken : Bool) (s : JM) (code : List JStmt)
+    (g' lg' : Nat) : Prop where
+  mono : g ≤ g'
+  lmono : lg ≤ lg'
+  labels : ∀ l ∈ labelsOf code, lg ≤ l ∧ l < lg'
+  nodup : (labelsOf code).Nodup
+  run : ∃ s', execFrag F diff .run code s = .ok (exitIf taken tgt, s') ∧
+    (∀ x, below g x → s'.m.store x = s.m.store x) ∧ s'.m.log = s.m.log ∧ s'.m.time = s.m.time ∧ IntStore s'.m.store
+
+theorem binop_int (F : FloatOps) (op : BinOp) (x y : Int32) : binop F op (.int x) (.int y) = binopInt op x y := rfl
+
+/-- `lower_cond_jump_comparison` on integer operands -/
+theorem cmp_sound (F : FloatOps) (I : JIntrinsics) (db ab diff fuel g lg : Nat) (t : Int) (mask : Nat) (kw : Kw)
+    (a : SExpr) (op : BinOp) (b : SExpr) (tgt : Goto) (code : List JStmt) (g' lg' : Nat) (s : JM) (x y r : Int32)
+    (hm : maskOn mask diff = true) (hia : IntOnly a) (hib : IntOnly b) (hba : exprBelow g a) (hbb : exprBelow g b)
+    (hs : IntStore s.m.store) (hea : evalS F diff s.m.store a = .ok (.int x)) (heb : evalS F diff s.m.store b = .ok (.int y))
+    (hr : binopInt op x y = .ok (.int r))
+    (h : lowerCmpJ I db ab fuel g lg t mask kw a op b tgt = .ok (code, g', lg')) :
+    CondSpec F diff g lg tgt (kw.takes (r != 0)) s code g' lg' := by
+  cases fuel with
+  | zero => simp [lowerCmpJ] at h
+  | succ fuel =>
+    simp only [lowerCmpJ] at h
+    cases hA : lowerTempJ I db ab fuel g lg t mask a with
+    | err e => simp [hA] at h
+    | panic e => simp [hA] at h
+    | ok A =>
+      simp only [hA] at h
+      have SA := temp_sound F I db ab diff fuel g lg t mask a A s (.int x) hm hia hba hs hea hA
+      obtain ⟨m1, hex1, hval1, hframe1, hlog1, htime1, hint1⟩ := SA.run
+      have heb1 : evalS F diff m1.store b = .ok (.int y) := by
+        rw [← heb]
+        apply evalS_congr F diff _ _ hib
+        intro z hz
+        exact hframe1 z (uses_below hbb hz)
+      rw [SA.lgen] at h
+      cases hB : lowerTempJ I db ab fuel A.gen lg t mask b with
+      | err e => simp [hB] at h
+      | panic e => simp [hB] at h
+      | ok B =>
+        simp only [hB] at h
+        have SB := temp_sound F I db ab diff fuel A.gen lg t mask b B ⟨m1, s.cmp⟩ (.int y) hm hib
+          (exprBelow_mono SA.mono hbb) hint1 heb1 hB
+        obtain ⟨m2, hex2, hval2, hframe2, hlog2, htime2, hint2⟩ := SB.run
+        have hA_stable : atomValue m2.store A.atom = .int x := by
+          rw [← hval1]
+          apply atomValue_congr
+          intro z hz
+          exact hframe2 z (SA.atomBelow z hz)
+        rw [SA.tyInt, SB.tyInt] at h
+        cases hC : condJmpAtom I mask kw op .int .int A.atom B.atom tgt with
+        | err e => simp [hC] at h
+        | panic e => simp [hC] at h
+        | ok c =>
+          simp only [hC, Outcome.ok.injEq, Prod.mk.injEq] at h
+          obtain ⟨rfl, rfl, rfl⟩ := h
+          obtain ⟨hlabc, cmp', hex3⟩ := exec_condJmpAtom F I diff mask kw op A.atom B.atom tgt c ⟨m2, s.cmp⟩ x y r
+            hm hint2 SA.atom SB.atom hA_stable hval2 hr hC
+          have hlab : labelsOf (A.code ++ (B.code ++ (c ++ (freeOfJ B.free ++ freeOfJ A.free)))) = [] := by
+            simp [labelsOf_append, SA.labels, SB.labels, hlabc, labelsOf_freeOfJ]
+          refine ⟨Nat.le_trans SA.mono SB.mono, by rw [SB.lgen]; exact Nat.le_refl _, ?_, ?_, ⟨⟨m2, cmp'⟩, ?_, ?_, ?_, ?_, hint2⟩⟩
+          · intro l hl; rw [hlab] at hl; cases hl
+          · rw [hlab]; exact List.nodup_nil
+          · exact execFrag_append_ok hex1 (execFrag_append_ok hex2 (execFrag_append_ok hex3
+              (execFrag_append_ok (execFrag_frees F diff B.free _ _) (execFrag_frees F diff A.free _ _))))
+          · intro z hz
+            show m2.store z = s.m.store z
+            rw [hframe2 z (below_mono SA.mono hz)]; exact hframe1 z hz
+          · show m2.log = s.m.log
+            rw [hlog2]; exact hlog1
+          · show m2.time = s.m.time
+            rw [htime2]; exact htime1
+
+/-- any integer expression as a condition: `e != 0` -/
+theorem fallback_sound (F : FloatOps) (I : JIntrinsics) (db ab diff fuel g lg : Nat) (t : Int) (mask : Nat) (kw : Kw)
+    (e : SExpr) (tgt : Goto) (code : List JStmt) (g' lg' : Nat) (s : JM) (v : Int32)
+    (hm : maskOn mask diff = true) (hi : IntOnly e) (hb : exprBelow g e) (hs : IntStore s.m.store)
+    (hev : evalS F diff s.m.store e = .ok (.int v))
+    (h : lowerCmpJ I db ab fuel g lg t mask kw e .ne (.litI 0) tgt = .ok (code, g', lg')) :
+    CondSpec F diff g lg tgt (kw.takes (v != 0)) s code g' lg' := by
+  have := cmp_sound F I db ab diff fuel g lg t mask kw e .ne (.litI 0) tgt code g' lg' s v 0 (b2i (v != 0))
+    hm hi trivial hb trivial hs hev rfl rfl h
+  rwa [b2i_ne_zero] at this
+
+theorem logic_easy (kw : Kw) (op : BinOp) (va vb r : Int32)
+    (heasy : (kw = .kif ∧ op = .lor) ∨ (kw = .kunless ∧ op = .land)) (hr : binopInt op va vb = .ok (.int r)) :
+    kw.takes (r != 0) = (kw.takes (va != 0) || kw.takes (vb != 0)) := by
+  rcases heasy with ⟨rfl, rfl⟩ | ⟨rfl, rfl⟩ <;>
+    simp only [binopInt, Outcome.ok.injEq, Value.int.injEq] at hr <;> subst hr <;>
+    by_cases hz : va = 0 <;> simp [Kw.takes, hz, bne]
+
+theorem logic_hard (kw : Kw) (op : BinOp) (va vb r : Int32) (hop : op = .land ∨ op = .lor)
+    (hne : ¬ ((kw = .kif ∧ op = .lor) ∨ (kw = .kunless ∧ op = .land))) (hr : binopInt op va vb = .ok (.int r)) :
+    kw.takes (r != 0) = (!kw.negate.takes (va != 0) && !kw.negate.takes (vb != 0)) := by
+  cases kw <;> rcases hop with rfl | rfl <;> simp at hne <;>
+    simp only [binopInt, Outcome.ok.injEq, Value.int.injEq] at hr <;> subst hr <;>
+    by_cases hz : va = 0 <;> simp [Kw.takes, Kw.negate, hz, bne]
+
+theorem setTime_store (s : JM) (t : Int) : (s.setTime t).m.store = s.m.store := rfl
+theorem setTime_log (s : JM) (t : Int) : (s.setTime t).m.log = s.m.log := rfl
+theorem setTime_time (s : JM) (t : Int) : (s.setTime t).m.time = t := rfl
+
+/-- the statement proved by induction on the fuel for `lower_cond_jump_non_count` and `lower_cond_jump_logic_binop` -/
+def CondSoundAt (F : FloatOps) (I : JIntrinsics) (db ab diff fuel : Nat) : Prop :=
+  (∀ g lg t mask kw e tgt code g' lg' s v, maskOn mask diff = true → IntOnly e → exprBelow g e → IntStore s.m.store →
+    evalS F diff s.m.store e = .ok (.int v) → s.m.time = t → tgt.l < lg →
+    lowerCondJ I db ab fuel g lg t mask kw e tgt = .ok (code, g', lg') →
+    CondSpec F diff g lg tgt (kw.takes (v != 0)) s code g' lg') ∧
+  (∀ g lg t mask kw a op b tgt code g' lg' s va vb r, maskOn mask diff = true → IntOnly a → IntOnly b →
+    exprBelow g a → exprBelow g b → IntStore s.m.store →
+    evalS F diff s.m.store a = .ok (.int va) → evalS F diff s.m.store b = .ok (.int vb) →
+    (op = .land ∨ op = .lor) → binopInt op va vb = .ok (.int r) → s.m.time = t → tgt.l < lg →
+    lowerLogicJ I db ab fuel g lg t mask kw a op b tgt = .ok (code, g', lg') →
+    CondSpec F diff g lg tgt (kw.takes (r != 0)) s code g' lg')
+
+theorem evalS_binop_int {F : FloatOps} {diff : Nat} {σ : Store} {op : BinOp} {a b : SExpr} {val : Value}
+    (hs : IntStore σ) (hia : IntOnly a) (hib : IntOnly b) (h : evalS F diff σ (.binop op a b) = .ok val) :
+    ∃ x y, evalS F diff σ a = .ok (.int x) ∧ evalS F diff σ b = .ok (.int y) ∧ binopInt op x y = .ok val := by
+  obtain ⟨va, vb, hea, heb, hop⟩ := evalS_binop_inv h
+  obtain ⟨x, rfl⟩ := evalS_int F diff σ hs hia hea
+  obtain ⟨y, rfl⟩ := evalS_int F diff σ hs hib heb
+  exact ⟨x, y, hea, heb, hop⟩
+
+theorem cond_case {F : FloatOps} {I : JIntrinsics} {db ab diff fuel : Nat} (ih : CondSoundAt F I db ab diff fuel)
+    (g lg : Nat) (t : Int) (mask : Nat) (kw : Kw) (e : SExpr) (tgt : Goto) (code : List JStmt) (g' lg' : Nat) (s : JM) (v : Int32)
+    (hm : maskOn mask diff = true) (hi : IntOnly e) (hb : exprBelow g e) (hs : IntStore s.m.store)
+    (hev : evalS F diff s.m.store e = .ok (.int v)) (ht : s.m.time = t) (htl : tgt.l < lg)
+    (h : lowerCondJ I db ab (fuel + 1) g lg t mask kw e tgt = .ok (code, g', lg')) :
+    CondSpec F diff g lg tgt (kw.takes (v != 0)) s code g' lg' := by
+  have hty := intOnly_ty hi
+  cases e with
+  | binop op a b =>
+    simp only [lowerCondJ] at h
+    obtain ⟨x, y, hea, heb, hop⟩ := evalS_binop_int hs hi.1 hi.2 hev
+    by_cases hc : isComparison op = true
+    · rw [if_pos hc] at h
+      exact cmp_sound F I db ab diff fuel g lg t mask kw a op b tgt code g' lg' s x y v hm hi.1 hi.2 hb.1 hb.2 hs hea heb hop h
+    · rw [if_neg hc] at h
+      by_cases hl : op = .land ∨ op = .lor
+      · rw [if_pos hl] at h
+        exact ih.2 g lg t mask kw a op b tgt code g' lg' s x y v hm hi.1 hi.2 hb.1 hb.2 hs hea heb hl hop ht htl h
+      · rw [if_neg hl] at h
+        simp only [hty, ne_eq, not_true_eq_false, ite_false] at h
+        exact fallback_sound F I db ab diff fuel g lg t mask kw _ tgt code g' lg' s v hm hi hb hs hev h
+  | unop op b =>
+    rcases hi.1 with rfl | rfl | rfl
+    · simp only [lowerCondJ, hty, ne_eq, not_true_eq_false, ite_false] at h
+      exact fallback_sound F I db ab diff fuel g lg t mask kw _ tgt code g' lg' s v hm hi hb hs hev h
+    · simp only [lowerCondJ] at h
+      obtain ⟨x, heb, hu⟩ := evalS_unop_inv (Or.inr (Or.inl rfl)) hev
+      obtain ⟨nx, rfl⟩ := evalS_int F diff s.m.store hs hi.2 heb
+      simp only [unop, Outcome.ok.injEq, Option.some.injEq, Value.int.injEq] at hu
+      subst hu
+      have := ih.1 g lg t mask kw.negate b tgt code g' lg' s nx hm hi.2 hb hs heb ht htl h
+      have hk : kw.negate.takes (nx != 0) = kw.takes (b2i (nx == 0) != 0) := by
+        cases kw <;> simp only [Kw.takes, Kw.negate, b2i_ne_zero] <;> simp [bne]
+      rwa [hk] at this
+    · simp only [lowerCondJ, hty, ne_eq, not_true_eq_false, ite_false] at h
+      exact fallback_sound F I db ab diff fuel g lg t mask kw _ tgt code g' lg' s v hm hi hb hs hev h
+  | litI n =>
+    simp only [lowerCondJ, hty, ne_eq, not_true_eq_false, ite_false] at h
+    exact fallback_sound F I db ab diff fuel g lg t mask kw _ tgt code g' lg' s v hm hi hb hs hev h
+  | var x =>
+    simp only [lowerCondJ, hty, ne_eq, not_true_eq_false, ite_false] at h
+    exact fallback_sound F I db ab diff fuel g lg t mask kw _ tgt code g' lg' s v hm hi hb hs hev h
+  | litF _ => exact absurd hi (by simp [IntOnly])
+  | ternary _ _ _ => exact absurd hi (by simp [IntOnly])
+  | switch _ => exact absurd hi (by simp [IntOnly])
+  | omitted => exact absurd hi (by simp [IntOnly])
+
+
+theorem exitIf_true (tgt : Goto) : exitIf true tgt = .jump tgt.l tgt.time := rfl
+theorem exitIf_false (tgt : Goto) : exitIf false tgt = .fall := rfl
+
+theorem lowerJmp_ok {I : JIntrinsics} {mask : Nat} {tgt : Goto} {j : List JStmt} (h : lowerJmp I mask tgt = .ok j) :
+    j = [.jmp mask tgt.l tgt.time] := by
+  unfold lowerJmp at h
+  cases hj : I.jmp with
+  | none => simp [hj] at h
+  | some _ => simp only [hj, Outcome.ok.injEq] at h; exact h.symm
+
+theorem logic_case {F : FloatOps} {I : JIntrinsics} {db ab diff fuel : Nat} (ih : CondSoundAt F I db ab diff fuel)
+    (g lg : Nat) (t : Int) (mask : Nat) (kw : Kw) (a : SExpr) (op : BinOp) (b : SExpr) (tgt : Goto) (code : List JStmt)
+    (g' lg' : Nat) (s : JM) (va vb r : Int32)
+    (hm : maskOn mask diff = true) (hia : IntOnly a) (hib : IntOnly b) (hba : exprBelow g a) (hbb : exprBelow g b)
+    (hs : IntStore s.m.store) (hea : evalS F diff s.m.store a = .ok (.int va)) (heb : evalS F diff s.m.store b = .ok (.int vb))
+    (hop : op = .land ∨ op = .lor) (hr : binopInt op va vb = .ok (.int r)) (ht : s.m.time = t) (htl : tgt.l < lg)
+    (h : lowerLogicJ I db ab (fuel + 1) g lg t mask kw a op b tgt = .ok (code, g', lg')) :
+    CondSpec F diff g lg tgt (kw.takes (r != 0)) s code g' lg' := by
+  simp only [lowerLogicJ] at h
+  by_cases heasy : (kw = .kif ∧ op = .lor) ∨ (kw = .kunless ∧ op = .land)
+  · rw [if_pos heasy] at h
+    rw [logic_easy kw op va vb r heasy hr]
+    cases h1 : lowerCondJ I db ab fuel g lg t mask kw a tgt with
+    | err x => simp [h1] at h
+    | panic x => simp [h1] at h
+    | ok r1 =>
+      obtain ⟨c1, g1, lg1⟩ := r1
+      simp only [h1] at h
+      have S1 := ih.1 g lg t mask kw a tgt c1 g1 lg1 s va hm hia hba hs hea ht htl h1
+      obtain ⟨s1, hex1, hframe1, hlog1, htime1, hint1⟩ := S1.run
+      have heb1 : evalS F diff s1.m.store b = .ok (.int vb) := by
+        rw [← heb]; apply evalS_congr F diff _ _ hib
+        intro z hz; exact hframe1 z (uses_below hbb hz)
+      cases h2 : lowerCondJ I db ab fuel g1 lg1 t mask kw b tgt with
+      | err x => simp [h2] at h
+      | panic x => simp [h2] at h
+      | ok r2 =>
+        obtain ⟨c2, g2, lg2⟩ := r2
+        simp only [h2, Outcome.ok.injEq, Prod.mk.injEq] at h
+        obtain ⟨rfl, rfl, rfl⟩ := h
+        have S2 := ih.1 g1 lg1 t mask kw b tgt c2 g2 lg2 s1 vb hm hib (exprBelow_mono S1.mono hbb) hint1 heb1
+          (by rw [htime1]; exact ht) (Nat.lt_of_lt_of_le htl S1.lmono) h2
+        obtain ⟨s2, hex2, hframe2, hlog2, htime2, hint2⟩ := S2.run
+        refine ⟨Nat.le_trans S1.mono S2.mono, Nat.le_trans S1.lmono S2.lmono, ?_, ?_, ?_⟩
+        · intro l hl
+          rw [labelsOf_append, List.mem_append] at hl
+          rcases hl with hl | hl
+          · have := S1.labels l hl; exact ⟨this.1, Nat.lt_of_lt_of_le this.2 S2.lmono⟩
+          · have := S2.labels l hl; exact ⟨Nat.le_trans S1.lmono this.1, this.2⟩
+        · rw [labelsOf_append]
+          refine List.nodup_append.mpr ⟨S1.nodup, S2.nodup, ?_⟩
+          intro x hx y hy hxy
+          have h1' := (S1.labels x hx).2
+          have h2' := (S2.labels y hy).1
+          omega
+        · cases htk : kw.takes (va != 0) with
+          | true =>
+            -- the first jump is taken; the label is not defined in the code of the second
+            rw [htk, exitIf_true] at hex1
+            refine ⟨s1, ?_, hframe1, hlog1, htime1, hint1⟩
+            simp only [Bool.true_or, exitIf_true]
+            refine execFrag_append_ok hex1 ?_
+            apply execFrag_seek_skip
+            intro l' hl' hEq
+            have := (S2.labels l' hl').1
+            have := S1.lmono
+            omega
+          | false =>
+            rw [htk, exitIf_false] at hex1
+            refine ⟨s2, ?_, ?_, by rw [hlog2, hlog1], by rw [htime2, htime1], hint2⟩
+            · simp only [Bool.false_or]
+              exact execFrag_append_ok hex1 hex2
+            · intro z hz; rw [hframe2 z (below_mono S1.mono hz)]; exact hframe1 z hz
+  · rw [if_neg heasy] at h
+    rw [logic_hard kw op va vb r hop heasy hr]
+    cases h1 : lowerCondJ I db ab fuel g (lg + 1) t mask kw.negate a ⟨lg, none⟩ with
+    | err x => simp [h1] at h
+    | panic x => simp [h1] at h
+    | ok r1 =>
+      obtain ⟨c1, g1, lg1⟩ := r1
+      simp only [h1] at h
+      have S1 := ih.1 g (lg + 1) t mask kw.negate a ⟨lg, none⟩ c1 g1 lg1 s va hm hia hba hs hea ht (Nat.lt_succ_self lg) h1
+      obtain ⟨s1, hex1, hframe1, hlog1, htime1, hint1⟩ := S1.run
+      have heb1 : evalS F diff s1.m.store b = .ok (.int vb) := by
+        rw [← heb]; apply evalS_congr F diff _ _ hib
+        intro z hz; exact hframe1 z (uses_below hbb hz)
+      have hl1 := S1.lmono
+      cases h2 : lowerCondJ I db ab fuel g1 lg1 t mask kw.negate b ⟨lg, none⟩ with
+      | err x => simp [h2] at h
+      | panic x => simp [h2] at h
+      | ok r2 =>
+        obtain ⟨c2, g2, lg2⟩ := r2
+        simp only [h2] at h
+        have S2 := ih.1 g1 lg1 t mask kw.negate b ⟨lg, none⟩ c2 g2 lg2 s1 vb hm hib (exprBelow_mono S1.mono hbb) hint1 heb1
+          (by rw [htime1]; exact ht) (by show lg < lg1; omega) h2
+        obtain ⟨s2, hex2, hframe2, hlog2, htime2, hint2⟩ := S2.run
+        have hl2 := S2.lmono
+        cases hj : lowerJmp I mask tgt with
+        | err x => simp [hj] at h
+        | panic x => simp [hj] at h
+        | ok j =>
+          simp only [hj, Outcome.ok.injEq, Prod.mk.injEq] at h
+          obtain ⟨rfl, rfl, rfl⟩ := h
+          have hjeq := lowerJmp_ok hj
+          subst hjeq
+          -- what follows the two conditions: `goto target; skip:`
+          have htail_seek : ∀ s0 : JM, execFrag F diff (.seek lg none) ([JStmt.jmp mask tgt.l tgt.time] ++ [JStmt.label t lg]) s0 =
+              .ok (.fall, s0.setTime t) := by
+            intro s0; simp [execFrag]
+          have htail_run : ∀ s0 : JM, execFrag F diff .run ([JStmt.jmp mask tgt.l tgt.time] ++ [JStmt.label t lg]) s0 =
+              .ok (.jump tgt.l tgt.time, s0) := by
+            intro s0
+            have hne : ¬ lg = tgt.l := by omega
+            simp [execFrag, stepJ, hm, hne]
+          have hc2_skip : ∀ s0 : JM, execFrag F diff (.seek lg none) c2 s0 = .ok (.jump lg none, s0) := by
+            intro s0
+            apply execFrag_seek_skip
+            intro l' hl' hEq
+            have := (S2.labels l' hl').1
+            omega
+          refine ⟨Nat.le_trans S1.mono S2.mono, by omega, ?_, ?_, ?_⟩
+          · intro l hl
+            simp only [labelsOf_append, List.mem_append] at hl
+            rcases hl with hl | hl | hl | hl
+            · have := S1.labels l hl; omega
+            · have := S2.labels l hl; omega
+            · simp [labelsOf] at hl
+            · simp only [labelsOf, List.mem_singleton] at hl; omega
+          · simp only [labelsOf_append]
+            refine List.nodup_append.mpr ⟨S1.nodup, List.nodup_append.mpr ⟨S2.nodup, by simp [labelsOf], ?_⟩, ?_⟩
+            · intro x hx y hy hxy
+              have := (S2.labels x hx).1
+              simp only [labelsOf, List.nil_append, List.mem_singleton] at hy
+              omega
+            · intro x hx y hy hxy
+              have h1' := S1.labels x hx
+              simp only [List.mem_append, labelsOf, List.mem_singleton, List.not_mem_nil, false_or] at hy
+              rcases hy with hy | hy
+              · have := (S2.labels y hy).1; omega
+              · omega
+          · cases htk1 : kw.negate.takes (va != 0) with
+            | true =>
+              rw [htk1, exitIf_true] at hex1
+              refine ⟨s1.setTime t, ?_, hframe1, hlog1, by rw [setTime_time]; exact ht.symm, hint1⟩
+              simp only [Bool.not_true, Bool.false_and, exitIf_false]
+              exact execFrag_append_ok hex1 (execFrag_append_ok (hc2_skip s1) (htail_seek s1))
+            | false =>
+              rw [htk1, exitIf_false] at hex1
+              cases htk2 : kw.negate.takes (vb != 0) with
+              | true =>
+                rw [htk2, exitIf_true] at hex2
+                refine ⟨s2.setTime t, ?_, ?_, by rw [setTime_log, hlog2, hlog1], by rw [setTime_time]; exact ht.symm, hint2⟩
+                · simp only [Bool.not_false, Bool.not_true, Bool.and_false, exitIf_false]
+                  exact execFrag_append_ok hex1 (execFrag_append_ok hex2 (htail_seek s2))
+                · intro z hz
+                  rw [setTime_store, hframe2 z (below_mono S1.mono hz)]; exact hframe1 z hz
+              | false =>
+                rw [htk2, exitIf_false] at hex2
+                refine ⟨s2, ?_, ?_, by rw [hlog2, hlog1], by rw [htime2, htime1], hint2⟩
+                · simp only [Bool.not_false, Bool.and_self, exitIf_true]
+                  exact execFrag_append_ok hex1 (execFrag_append_ok hex2 (htail_run s2))
+                · intro z hz
+                  rw [hframe2 z (below_mono S1.mono hz)]; exact hframe1 z hz
+
+/-- `lower_cond_jump_non_count` and `lower_cond_jump_logic_binop` are sound at every fuel -/
+theorem condSoundAt (F : FloatOps) (I : JIntrinsics) (db ab diff : Nat) : ∀ fuel, CondSoundAt F I db ab diff fuel
+  | 0 => by
+    refine ⟨?_, ?_⟩ <;> intros <;> simp_all [lowerCondJ, lowerLogicJ]
+  | fuel + 1 => by
+    have ih := condSoundAt F I db ab diff fuel
+    exact ⟨fun g lg t mask kw e tgt code g' lg' s v hm hi hb hs hev ht htl h =>
+        cond_case ih g lg t mask kw e tgt code g' lg' s v hm hi hb hs hev ht htl h,
+      fun g lg t mask kw a op b tgt code g' lg' s va vb r hm hia hib hba hbb hs hea heb hop hr ht htl h =>
+        logic_case ih g lg t mask kw a op b tgt code g' lg' s va vb r hm hia hib hba hbb hs hea heb hop hr ht htl h⟩
+
+
+/-! ## 13. counting jumps and the statement `if|unless (c) goto L @ t` -/
+
+/-- the condition of a jump statement is in the proved fragment -/
+def CondOK (g : Nat) : JCond → Prop
+  | .expr e => IntOnly e ∧ exprBelow g e
+  | .predec v _ => v.readTy = .int
+
+/-- `if|unless (--x) goto L` / `(--x != 0)` / `(--x > 0)`: `x` is decremented exactly once (wrapping), the
+fragment is left by the jump iff the flavour's test of the NEW value says so -/
+theorem lowerCountJmp_sound (F : FloatOps) (I : JIntrinsics) (diff lg : Nat) (t : Int) (mask : Nat) (kw : Kw) (v : VarRef)
+    (k : CountKind) (tgt : Goto) (code : List JStmt) (lg' : Nat) (s : JM) (n : Int32)
+    (hm : maskOn mask diff = true) (hv : v.readTy = .int) (hs : IntStore s.m.store) (hn : s.m.store v.name = .int n)
+    (ht : s.m.time = t) (htl : tgt.l < lg)
+    (h : lowerCountJmp I lg t mask kw v k tgt = .ok (code, lg')) :
+    lg ≤ lg' ∧ (∀ l ∈ labelsOf code, lg ≤ l ∧ l < lg') ∧ (labelsOf code).Nodup ∧
+    ∃ s', execFrag F diff .run code s = .ok (exitIf (kw.takes (k.test (n - 1))) tgt, s') ∧
+      s'.m.store = upd s.m.store v.name (.int (n - 1)) ∧ s'.m.log = s.m.log ∧ s'.m.time = s.m.time := by
+  have hvl : IntAtom v.lowered := by rw [VarRef.lowered, hv]; exact toArg_intAtom v
+  have hrv : readArg F diff s.m.store v.lowered = .ok (.int n) := by
+    rw [readArg_intAtom F diff hs hvl, VarRef.lowered, atomValue_toArg, hn]
+  unfold lowerCountJmp at h
+  cases hk : I.countJmp k with
+  | none => simp [hk] at h
+  | some opc =>
+    simp only [hk, hv, ne_eq, not_true_eq_false, ite_false] at h
+    cases kw with
+    | kif =>
+      simp only [Outcome.ok.injEq, Prod.mk.injEq] at h
+      obtain ⟨rfl, rfl⟩ := h
+      refine ⟨Nat.le_refl _, by simp [labelsOf], by simp [labelsOf], ?_⟩
+      cases htest : k.test (n - 1) <;>
+        simp [execFrag, stepJ, hm, argVar_lowered, hrv, htest, Kw.takes, exitIf]
+    | kunless =>
+      simp only [] at h
+      cases hj : lowerJmp I mask tgt with
+      | err x => simp [hj] at h
+      | panic x => simp [hj] at h
+      | ok j =>
+        have hjeq := lowerJmp_ok hj
+        subst hjeq
+        simp only [hj, Outcome.ok.injEq, Prod.mk.injEq] at h
+        obtain ⟨rfl, rfl⟩ := h
+        have hne : ¬ lg = tgt.l := by omega
+        refine ⟨Nat.le_succ _, by simp [labelsOf], by simp [labelsOf], ?_⟩
+        cases htest : k.test (n - 1)
+        · -- the counter reached the end: fall into `goto target`
+          refine ⟨⟨{ s.m with store := upd s.m.store v.name (.int (n - 1)) }, s.cmp⟩, ?_, rfl, rfl, rfl⟩
+          simp [execFrag, stepJ, hm, argVar_lowered, hrv, htest, Kw.takes, exitIf, hne]
+        · refine ⟨JM.setTime ⟨{ s.m with store := upd s.m.store v.name (.int (n - 1)) }, s.cmp⟩ t, ?_, rfl, rfl, ?_⟩
+          · simp only [List.cons_append, List.nil_append, execFrag, stepJ, hm, argVar_lowered, hrv, htest, Kw.takes, exitIf]
+            simp
+          · simp [JM.setTime, ht]
+
+/-- **lowerCondJump_sound**: `if (c) goto L @ t` / `unless (c) goto L @ t` for every integer condition (all
+comparison and logical operators, `!`, any nesting, operands of any complexity, plain integer expressions,
+constants) and for the counting conditions `--x`, `--x != 0`, `--x > 0`, under every intrinsic table in which the
+lowering succeeds (one conditional jump per comparison or the cmp + jmp pair; either counting jump), every
+store of integers, difficulty and value of the two counters: the emitted fragment is left EITHER by a jump to
+`L` (carrying the time `t` of the statement, if given) OR at its end; by the jump IFF the source statement
+jumps (`evalCond`: condition non-zero for `if`, zero for `unless`; for `--x` the flavour's test of the
+decremented value); every variable below the temp counter ends as the source leaves it (unchanged, except `x`
+of `--x`, decremented exactly once); nothing is logged; the time is kept; the labels the fragment defines are
+fresh (≥ the label counter) and pairwise different. -/
+theorem lowerCondJump_sound (F : FloatOps) (I : JIntrinsics) (db ab diff g lg : Nat) (t : Int) (mask : Nat) (kw : Kw)
+    (c : JCond) (tgt : Goto) (code : List JStmt) (g' lg' : Nat) (s : JM) (taken : Bool) (σ' : Store)
+    (hm : maskOn mask diff = true) (hc : CondOK g c) (hs : IntStore s.m.store) (ht : s.m.time = t) (htl : tgt.l < lg)
+    (hsrc : evalCond F diff s.m.store c = .ok (taken, σ'))
+    (h : lowerCondGoto I db ab g lg t mask kw c tgt = .ok (code, g', lg')) :
+    g ≤ g' ∧ lg ≤ lg' ∧ (∀ l ∈ labelsOf code, lg ≤ l ∧ l < lg') ∧ (labelsOf code).Nodup ∧
+    ∃ s', execFrag F diff .run code s = .ok (exitIf (kw.takes taken) tgt, s') ∧
+      (∀ x, below g x → s'.m.store x = σ' x) ∧ s'.m.log = s.m.log ∧ s'.m.time = s.m.time := by
+  cases c with
+  | expr e =>
+    obtain ⟨hi, hb⟩ := hc
+    simp only [evalCond] at hsrc
+    cases hev : evalS F diff s.m.store e with
+    | err x => simp [hev] at hsrc
+    | panic x => simp [hev] at hsrc
+    | ok val =>
+      obtain ⟨v, rfl⟩ := evalS_int F diff s.m.store hs hi hev
+      simp only [hev, Outcome.ok.injEq, Prod.mk.injEq] at hsrc
+      obtain ⟨rfl, rfl⟩ := hsrc
+      simp only [lowerCondGoto] at h
+      have S := (condSoundAt F I db ab diff (jumpFuel e)).1 g lg t mask kw e tgt code g' lg' s v hm hi hb hs hev ht htl h
+      obtain ⟨s', hex, hframe, hlog, htime, _⟩ := S.run
+      exact ⟨S.mono, S.lmono, S.labels, S.nodup, s', hex, hframe, hlog, htime⟩
+  | predec v k =>
+    have hv : v.readTy = .int := hc
+    simp only [evalCond, evalS_var F diff hs hv] at hsrc
+    obtain ⟨n, hn⟩ := hs v.name
+    simp only [hn, Outcome.ok.injEq, Prod.mk.injEq] at hsrc
+    obtain ⟨rfl, rfl⟩ := hsrc
+    simp only [lowerCondGoto] at h
+    cases hl : lowerCountJmp I lg t mask kw v k tgt with
+    | err x => simp [hl] at h
+    | panic x => simp [hl] at h
+    | ok r =>
+      obtain ⟨code', lg1⟩ := r
+      simp only [hl, Outcome.ok.injEq, Prod.mk.injEq] at h
+      obtain ⟨rfl, rfl, rfl⟩ := h
+      obtain ⟨hlm, hlab, hnd, s', hex, hst, hlog, htime⟩ :=
+        lowerCountJmp_sound F I diff lg t mask kw v k tgt code' lg1 s n hm hv hs hn ht htl hl
+      exact ⟨Nat.le_refl _, hlm, hlab, hnd, s', hex, fun x _ => by rw [hst], hlog, htime⟩
+
+/-- the same inside a whole lowered stream, for the program-counter machine `execJ` steps with (`Reach` is the
+reflexive-transitive closure of its step function): if no label ≥ the label counter is defined before the
+fragment, the machine started at the fragment either arrives at the statement after it (the source does not
+jump) or at the place where the program defines `L`, with the time of the jump or of the label (the source
+jumps) -/
+theorem lowerCondJump_reach (F : FloatOps) (I : JIntrinsics) (db ab diff g lg : Nat) (t : Int) (mask : Nat) (kw : Kw)
+    (c : JCond) (tgt : Goto) (code : List JStmt) (g' lg' : Nat) (s : JM) (taken : Bool) (σ' : Store) (pre post : List JStmt)
+    (hm : maskOn mask diff = true) (hc : CondOK g c) (hs : IntStore s.m.store) (ht : s.m.time = t) (htl : tgt.l < lg)
+    (hpre : ∀ l ∈ labelsOf pre, l < lg)
+    (hsrc : evalCond F diff s.m.store c = .ok (taken, σ'))
+    (h : lowerCondGoto I db ab g lg t mask kw c tgt = .ok (code, g', lg')) :
+    ∃ s', (∀ x, below g x → s'.m.store x = σ' x) ∧ s'.m.log = s.m.log ∧ s'.m.time = s.m.time ∧
+      (kw.takes taken = false → Reach F diff (pre ++ code ++ post) pre.length s (pre.length + code.length) s') ∧
+      (kw.takes taken = true → ∀ i tl, findLabelJ (pre ++ code ++ post) tgt.l 0 = some (i, tl) →
+        Reach F diff (pre ++ code ++ post) pre.length s i (s'.setTime (tgt.time.getD tl))) := by
+  obtain ⟨_, _, hlab, hnd, s', hex, hframe, hlog, htime⟩ :=
+    lowerCondJump_sound F I db ab diff g lg t mask kw c tgt code g' lg' s taken σ' hm hc hs ht htl hsrc h
+  have hy : Hygienic pre code := ⟨hnd, fun l hl hp => by have := (hlab l hl).1; have := hpre l hp; omega⟩
+  refine ⟨s', hframe, hlog, htime, ?_, ?_⟩
+  · intro hk
+    rw [hk, exitIf_false] at hex
+    have := execFrag_reach F diff pre code post hy code.length 0 s s' .fall (by simp) (Nat.zero_le _) (by simpa using hex)
+    simpa using this
+  · intro hk i tl hi
+    rw [hk, exitIf_true] at hex
+    have := execFrag_reach F diff pre code post hy code.length 0 s s' (.jump tgt.l tgt.time) (by simp) (Nat.zero_le _)
+      (by simpa using hex)
+    simpa using this i tl hi
+
+
+/-! ## 14. ternary -/
+
+/-- the temp counter never decreases (no evaluation needed: also for code that is not executed) -/
+def MonoAt (I : Intrinsics) (db ab fuel : Nat) : Prop :=
+  (∀ g mask v e c g', IntOnly e → lowerSet I db ab fuel g mask v e = .ok (c, g') → g ≤ g') ∧
+  (∀ g mask v ty guard e O, IntOnly e → lowerOperand I db ab fuel g mask v ty guard e = .ok O → g ≤ O.gen) ∧
+  (∀ g mask v op a b c g', IntOnly a → IntOnly b → lowerBinop I db ab fuel g mask v op a b = .ok (c, g') → g ≤ g') ∧
+  (∀ g mask v op b c g', IntOnly b → lowerUnop I db ab fuel g mask v op b = .ok (c, g') → g ≤ g')
+
+theorem monoAt (I : Intrinsics) (db ab : Nat) : ∀ fuel, MonoAt I db ab fuel
+  | 0 => by
+    refine ⟨?_, ?_, ?_, ?_⟩ <;> intros <;> simp_all [lowerSet, lowerOperand, lowerBinop, lowerUnop]
+  | fuel + 1 => by
+    have ih := monoAt I db ab fuel
+    refine ⟨?_, ?_, ?_, ?_⟩
+    · intro g mask v e c g' hi h
+      simp only [lowerSet] at h
+      cases hsim : e.simple? with
+      | some a =>
+        simp only [hsim] at h
+        cases hat : lowerAssignAtom I mask v .set a with
+        | ok c' => simp only [hat, Outcome.ok.injEq, Prod.mk.injEq] at h; obtain ⟨_, rfl⟩ := h; exact Nat.le_refl _
+        | err x => simp [hat] at h
+        | panic x => simp [hat] at h
+      | none =>
+        simp only [hsim] at h
+        obtain ⟨ht1, ht2, ht3⟩ := intOnly_temp hi
+        simp only [ht1, ht2, ht3, ne_eq, not_true_eq_false, ite_false] at h
+        cases e with
+        | binop op a b => exact ih.2.2.1 g mask v op a b c g' hi.1 hi.2 h
+        | unop op b => exact ih.2.2.2 g mask v op b c g' hi.2 h
+        | litI _ => simp [SExpr.simple?] at hsim
+        | var _ => simp [SExpr.simple?] at hsim
+        | litF _ => exact absurd hi (by simp [IntOnly])
+        | ternary _ _ _ => exact absurd hi (by simp [IntOnly])
+        | switch _ => exact absurd hi (by simp [IntOnly])
+        | omitted => exact absurd hi (by simp [IntOnly])
+    · intro g mask v ty guard e O hi h
+      simp only [lowerOperand] at h
+      cases hsim : e.simple? with
+      | some a => simp only [hsim, Outcome.ok.injEq] at h; subst h; exact Nat.le_refl _
+      | none =>
+        simp only [hsim] at h
+        obtain ⟨ht1, ht2, ht3⟩ := intOnly_temp hi
+        simp only [ht1, ht2, ht3] at h
+        split at h
+        · cases hl : lowerSet I db ab fuel g mask v e with
+          | ok r =>
+            obtain ⟨c, g1⟩ := r
+            simp only [hl, Outcome.ok.injEq] at h; subst h
+            exact ih.1 g mask v e c g1 hi hl
+          | err x => simp [hl] at h
+          | panic x => simp [hl] at h
+        · cases hl : lowerSet I db ab fuel (g + 1) mask (tmpVar g .int) e with
+          | ok r =>
+            obtain ⟨c, g1⟩ := r
+            simp only [hl, Outcome.ok.injEq] at h; subst h
+            have := ih.1 (g + 1) mask (tmpVar g .int) e c g1 hi hl
+            exact Nat.le_of_succ_le this
+          | err x => simp [hl] at h
+          | panic x => simp [hl] at h
+    · intro g mask v op a b c g' hia hib h
+      simp only [lowerBinop] at h
+      cases hA : lowerOperand I db ab fuel g mask v (binopTy op a.ty) (!b.uses v.name) a with
+      | err x => simp [hA] at h
+      | panic x => simp [hA] at h
+      | ok A =>
+        simp only [hA] at h
+        have h1 := ih.2.1 g mask v _ _ a A hia hA
+        cases hB : lowerOperand I db ab fuel A.gen mask v (binopTy op a.ty) (!operandUses a v.name A.free) b with
+        | err x => simp [hB] at h
+        | panic x => simp [hB] at h
+        | ok B =>
+          simp only [hB] at h
+          have h2 := ih.2.1 A.gen mask v _ _ b B hib hB
+          cases hC : lowerBinopAtom I mask v op A.ty A.atom B.atom with
+          | err x => simp [hC] at h
+          | panic x => simp [hC] at h
+          | ok c' =>
+            simp only [hC, Outcome.ok.injEq, Prod.mk.injEq] at h
+            obtain ⟨_, rfl⟩ := h
+            exact Nat.le_trans h1 h2
+    · intro g mask v op b c g' hib h
+      simp only [lowerUnop] at h
+      cases hB : lowerOperand I db ab fuel g mask v (unopTy op b.ty) true b with
+      | err x => simp [hB] at h
+      | panic x => simp [hB] at h
+      | ok B =>
+        simp only [hB] at h
+        have h1 := ih.2.1 g mask v _ _ b B hib hB
+        cases hC : lowerUnopAtom I mask v op B.ty B.atom with
+        | err x => simp [hC] at h
+        | panic x => simp [hC] at h
+        | ok c' =>
+          simp only [hC, Outcome.ok.injEq, Prod.mk.injEq] at h
+          obtain ⟨_, rfl⟩ := h
+          exact h1
+
+/-- the code of `v = e` for an integer expression, as a fragment: whether or not it is executed it defines no
+label, leaves the label counter alone and does not decrease the temp counter -/
+theorem setJ_shape (I : JIntrinsics) (db ab fuel g lg : Nat) (t : Int) (mask : Nat) (v : VarRef) (e : SExpr)
+    (code : List JStmt) (g' lg' : Nat) (hi : IntOnly e)
+    (h : lowerSetJ I db ab fuel g lg t mask v e = .ok (code, g', lg')) :
+    g ≤ g' ∧ lg = lg' ∧ labelsOf code = [] ∧ ∃ c, code = liftCode c ∧ lowerSet I.base db ab fuel g mask v e = .ok (c, g') := by
+  rw [lowerSetJ_eq I db ab fuel g lg t mask v e hi] at h
+  cases hl : lowerSet I.base db ab fuel g mask v e with
+  | err x => simp [hl, liftRes] at h
+  | panic x => simp [hl, liftRes] at h
+  | ok r =>
+    obtain ⟨c, g1⟩ := r
+    simp only [hl, liftRes, Outcome.ok.injEq, Prod.mk.injEq] at h
+    obtain ⟨rfl, rfl, rfl⟩ := h
+    exact ⟨(monoAt I.base db ab fuel).1 g mask v e c g1 hi hl, rfl, labelsOf_lift c, c, rfl, rfl⟩
+
+/-- `v = e` for an integer expression, executed as a fragment -/
+theorem setJ_run (F : FloatOps) (I : JIntrinsics) (db ab diff fuel g lg : Nat) (t : Int) (mask : Nat) (v : VarRef) (e : SExpr)
+    (code : List JStmt) (g' lg' : Nat) (s : JM) (val : Value) (cx : Ctx F diff g mask v e s.m val)
+    (h : lowerSetJ I db ab fuel g lg t mask v e = .ok (code, g', lg')) :
+    ∃ m', execFrag F diff .run code s = .ok (.fall, ⟨m', s.cmp⟩) ∧ m'.store v.name = val ∧
+      (∀ x, x ≠ v.name → below g x → m'.store x = s.m.store x) ∧ m'.log = s.m.log ∧ m'.time = s.m.time ∧ IntStore m'.store := by
+  obtain ⟨_, _, _, c, rfl, hl⟩ := setJ_shape I db ab fuel g lg t mask v e code g' lg' cx.intOnly h
+  obtain ⟨_, m', hex, hval, hframe, hlog, htime, hint⟩ := lowerSet_sound F I.base db ab diff fuel g mask v e c g' s.m val cx hl
+  exact ⟨m', execFrag_lift F diff s.cmp c s.m m' hex, hval, hframe, hlog, htime, hint⟩
+
+theorem evalS_ternary_inv {F : FloatOps} {diff : Nat} {σ : Store} {c l r : SExpr} {val : Value}
+    (h : evalS F diff σ (.ternary c l r) = .ok val) :
+    ∃ vc, evalS F diff σ c = .ok (.int vc) ∧ evalS F diff σ (if vc = 0 then r else l) = .ok val := by
+  simp only [evalS] at h
+  cases hc : evalS F diff σ c with
+  | ok x =>
+    cases x with
+    | int vc =>
+      simp only [hc] at h
+      refine ⟨vc, rfl, ?_⟩
+      by_cases hz : vc = 0
+      · simpa [hz] using h
+      · simpa [hz] using h
+    | float _ => simp [hc] at h
+    | str _ => simp [hc] at h
+  | err x => simp [hc] at h
+  | panic x => simp [hc] at h
+
+/-- **lowerTernary_sound** (as the expression compiler sees it): `v = c ? l : r` with an integer condition of any
+shape and integer branches of any complexity, under every intrinsic table in which the lowering succeeds
+(`unless (c) goto false; v = l; goto end; false: v = r; end:`): the emitted fragment runs to its end without
+leaving, `v` holds the value of the branch the source selects - only the condition and THAT branch have to
+evaluate (the other branch may divide by zero) -, no other variable below the temp counter changes, nothing is
+logged, the time is kept, and the labels of the fragment are fresh and pairwise different. -/
+theorem lowerTernarySet_sound (F : FloatOps) (I : JIntrinsics) (db ab diff fuel g lg : Nat) (t : Int) (mask : Nat) (v : VarRef)
+    (c l r : SExpr) (code : List JStmt) (g' lg' : Nat) (s : JM) (val : Value)
+    (hm : maskOn mask diff = true) (hv : v.readTy = .int) (hvb : below g v.name)
+    (hic : IntOnly c) (hil : IntOnly l) (hir : IntOnly r)
+    (hbc : exprBelow g c) (hbl : exprBelow g l) (hbr : exprBelow g r)
+    (hs : IntStore s.m.store) (ht : s.m.time = t)
+    (hev : evalS F diff s.m.store (.ternary c l r) = .ok val)
+    (h : lowerSetJ I db ab fuel g lg t mask v (.ternary c l r) = .ok (code, g', lg')) :
+    g ≤ g' ∧ lg ≤ lg' ∧ (∀ x ∈ labelsOf code, lg ≤ x ∧ x < lg') ∧ (labelsOf code).Nodup ∧
+    ∃ s', execFrag F diff .run code s = .ok (.fall, s') ∧ s'.m.store v.name = val ∧
+      (∀ x, x ≠ v.name → below g x → s'.m.store x = s.m.store x) ∧ s'.m.log = s.m.log ∧ s'.m.time = s.m.time ∧
+      IntStore s'.m.store := by
+  cases fuel with
+  | zero => simp [lowerSetJ] at h
+  | succ fuel =>
+    have hty : (SExpr.ternary c l r).ty = l.ty := rfl
+    simp only [lowerSetJ, SExpr.simple?, SExpr.temp, ne_eq, not_true_eq_false, ite_false] at h
+    cases fuel with
+    | zero => simp [lowerTernaryJ] at h
+    | succ fuel =>
+      simp only [lowerTernaryJ] at h
+      obtain ⟨vc, hevc, hevb⟩ := evalS_ternary_inv hev
+      cases h1 : lowerCondJ I db ab fuel g (lg + 2) t mask .kunless c ⟨lg, none⟩ with
+      | err x => simp [h1] at h
+      | panic x => simp [h1] at h
+      | ok r1 =>
+        obtain ⟨c1, g1, lg1⟩ := r1
+        simp only [h1] at h
+        have S1 := (condSoundAt F I db ab diff fuel).1 g (lg + 2) t mask .kunless c ⟨lg, none⟩ c1 g1 lg1 s vc hm hic hbc hs
+          hevc ht (by show lg < lg + 2; omega) h1
+        obtain ⟨s1, hex1, hframe1, hlog1, htime1, hint1⟩ := S1.run
+        have hl1 := S1.lmono
+        have hg1 := S1.mono
+        cases h2 : lowerSetJ I db ab fuel g1 lg1 t mask v l with
+        | err x => simp [h2] at h
+        | panic x => simp [h2] at h
+        | ok r2 =>
+          obtain ⟨c2, g2, lg2⟩ := r2
+          simp only [h2] at h
+          obtain ⟨hg2, rfl, hlab2, cl, rfl, hcl⟩ := setJ_shape I db ab fuel g1 lg1 t mask v l c2 g2 lg2 hil h2
+          cases hj : lowerJmp I mask ⟨lg + 1, none⟩ with
+          | err x => simp [hj] at h
+          | panic x => simp [hj] at h
+          | ok j =>
+            have hjeq := lowerJmp_ok hj
+            subst hjeq
+            simp only [hj] at h
+            cases h3 : lowerSetJ I db ab fuel g2 lg1 t mask v r with
+            | err x => simp [h3] at h
+            | panic x => simp [h3] at h
+            | ok r3 =>
+              obtain ⟨c3, g3, lg3⟩ := r3
+              simp only [h3, Outcome.ok.injEq, Prod.mk.injEq] at h
+              obtain ⟨rfl, rfl, rfl⟩ := h
+              obtain ⟨hg3, rfl, hlab3, cr, rfl, hcr⟩ := setJ_shape I db ab fuel g2 lg1 t mask v r c3 g3 lg3 hir h3
+              -- labels of the whole fragment: those of the condition, `false` = lg and `end` = lg + 1
+              have hlabs : labelsOf (c1 ++ (liftCode cl ++ ([JStmt.jmp mask (lg + 1) none] ++
+                  (JStmt.label t lg :: (liftCode cr ++ [JStmt.label t (lg + 1)]))))) = labelsOf c1 ++ [lg, lg + 1] := by
+                simp [labelsOf_append, labelsOf, hlab2, hlab3]
+              refine ⟨by omega, by omega, ?_, ?_, ?_⟩
+              · intro x hx
+                rw [hlabs, List.mem_append] at hx
+                rcases hx with hx | hx
+                · have := S1.labels x hx; omega
+                · simp only [List.mem_cons, List.not_mem_nil, or_false] at hx; omega
+              · rw [hlabs]
+                refine List.nodup_append.mpr ⟨S1.nodup, by simp, ?_⟩
+                intro x hx y hy hxy
+                have := S1.labels x hx
+                simp only [List.mem_cons, List.not_mem_nil, or_false] at hy
+                omega
+              · by_cases hz : vc = 0
+                · -- the condition is false: `unless` jumps to `false`, `v = r` runs
+                  subst hz
+                  simp only [if_true] at hevb
+                  have htk : Kw.kunless.takes ((0 : Int32) != 0) = true := by decide
+                  rw [htk, exitIf_true] at hex1
+                  have hevr1 : evalS F diff s1.m.store r = .ok val := by
+                    rw [← hevb]; apply evalS_congr F diff _ _ hir
+                    intro z hz; exact hframe1 z (uses_below hbr hz)
+                  have hg12 : g ≤ g2 := by omega
+                  obtain ⟨m3, hex3, hval3, hframe3, hlog3, htime3, hint3⟩ :=
+                    setJ_run F I db ab diff fuel g2 lg1 t mask v r (liftCode cr) g3 lg1 (s1.setTime t) val
+                      ⟨hm, hv, below_mono hg12 hvb, hir, exprBelow_mono hg12 hbr, hint1, hevr1⟩ h3
+                  refine ⟨⟨m3, s1.cmp⟩, ?_, hval3, ?_, by rw [hlog3]; exact hlog1, by rw [htime3]; exact ht.symm, hint3⟩
+                  · refine execFrag_append_ok hex1 ?_
+                    -- skip `v = l` and `goto end`, land on `false`
+                    have hskip : execFrag F diff (.seek lg none) (liftCode cl) s1 = .ok (.jump lg none, s1) :=
+                      execFrag_seek_skip F diff lg none _ s1 (by rw [hlab2]; intro l' hl'; cases hl')
+                    refine execFrag_append_ok hskip ?_
+                    show execFrag F diff (.seek lg none) ([JStmt.jmp mask (lg + 1) none] ++
+                      (JStmt.label t lg :: (liftCode cr ++ [JStmt.label t (lg + 1)]))) s1 = _
+                    simp only [List.cons_append, List.nil_append, execFrag, if_true, Option.getD_none]
+                    refine execFrag_append_ok hex3 ?_
+                    simp [modeOf, execFrag, stepJ, JM.setTime]
+                  · intro x hx hxb
+                    rw [hframe3 x hx (below_mono hg12 hxb)]
+                    exact hframe1 x hxb
+                · -- the condition is true: fall into `v = l`, then `goto end`
+                  simp only [hz, if_false] at hevb
+                  have htk : Kw.kunless.takes (vc != 0) = false := by simp [Kw.takes, bne, hz]
+                  rw [htk, exitIf_false] at hex1
+                  have hevl1 : evalS F diff s1.m.store l = .ok val := by
+                    rw [← hevb]; apply evalS_congr F diff _ _ hil
+                    intro z hz; exact hframe1 z (uses_below hbl hz)
+                  obtain ⟨m2, hex2, hval2, hframe2, hlog2, htime2, hint2⟩ :=
+                    setJ_run F I db ab diff fuel g1 lg1 t mask v l (liftCode cl) g2 lg1 s1 val
+                      ⟨hm, hv, below_mono hg1 hvb, hil, exprBelow_mono hg1 hbl, hint1, hevl1⟩ h2
+                  refine ⟨JM.setTime ⟨m2, s1.cmp⟩ t, ?_, hval2, ?_, by rw [setTime_log]; show m2.log = _; rw [hlog2]; exact hlog1,
+                    by rw [setTime_time]; exact ht.symm, hint2⟩
+                  · refine execFrag_append_ok hex1 (execFrag_append_ok hex2 ?_)
+                    have hne : ¬ lg = lg + 1 := by omega
+                    have hskip : execFrag F diff (.seek (lg + 1) none) (liftCode cr) ⟨m2, s1.cmp⟩ = .ok (.jump (lg + 1) none, ⟨m2, s1.cmp⟩) :=
+                      execFrag_seek_skip F diff (lg + 1) none _ _ (by rw [hlab3]; intro l' hl'; cases hl')
+                    show execFrag F diff .run ([JStmt.jmp mask (lg + 1) none] ++
+                      (JStmt.label t lg :: (liftCode cr ++ [JStmt.label t (lg + 1)]))) ⟨m2, s1.cmp⟩ = _
+                    simp only [List.cons_append, List.nil_append, execFrag, stepJ, hm, Bool.not_true, Bool.false_eq_true, if_false, hne]
+                    refine execFrag_append_ok hskip ?_
+                    simp [modeOf, execFrag]
+                  · intro x hx hxb
+                    show m2.store x = s.m.store x
+                    rw [hframe2 x hx (below_mono hg1 hxb)]
+                    exact hframe1 x hxb
+
+
+/-- **lowerTernary_sound**: the statement `v = c ? l : r` (integer condition of any shape, integer branches of any
+complexity, `v` an integer variable below the temp counter): whenever the source statement runs, the emitted
+fragment runs to its end without leaving, and every variable below the temp counter, the log and the time
+are as after the source statement; its labels are fresh and pairwise different. -/
+theorem lowerTernary_sound (F : FloatOps) (I : JIntrinsics) (db ab diff g lg : Nat) (t : Int) (mask : Nat) (v : VarRef)
+    (c l r : SExpr) (code : List JStmt) (g' lg' : Nat) (s : JM) (msrc : Machine)
+    (hm : maskOn mask diff = true) (hv : v.readTy = .int) (hvb : below g v.name)
+    (hic : IntOnly c) (hil : IntOnly l) (hir : IntOnly r)
+    (hbc : exprBelow g c) (hbl : exprBelow g l) (hbr : exprBelow g r)
+    (hs : IntStore s.m.store) (ht : s.m.time = t)
+    (hsrc : runAssign F diff s.m v .set (.ternary c l r) = .ok msrc)
+    (h : lowerAssignJ I db ab g lg t mask v .set (.ternary c l r) = .ok (code, g', lg')) :
+    (∀ x ∈ labelsOf code, lg ≤ x ∧ x < lg') ∧ (labelsOf code).Nodup ∧
+    ∃ s', execFrag F diff .run code s = .ok (.fall, s') ∧ (∀ x, below g x → s'.m.store x = msrc.store x) ∧
+      s'.m.log = msrc.log ∧ s'.m.time = msrc.time := by
+  simp only [runAssign, AssignOp.binop] at hsrc
+  cases hev : evalS F diff s.m.store (.ternary c l r) with
+  | err x => simp [hev] at hsrc
+  | panic x => simp [hev] at hsrc
+  | ok val =>
+    simp only [hev, Outcome.ok.injEq] at hsrc
+    subst hsrc
+    simp only [lowerAssignJ] at h
+    obtain ⟨_, _, hlab, hnd, s', hex, hval, hframe, hlog, htime, _⟩ :=
+      lowerTernarySet_sound F I db ab diff _ g lg t mask v c l r code g' lg' s val hm hv hvb hic hil hir hbc hbl hbr hs ht hev h
+    refine ⟨hlab, hnd, s', hex, ?_, hlog, htime⟩
+    intro x hx
+    by_cases hxv : x = v.name
+    · subst hxv; simp [upd_same, hval]
+    · simp [upd_other _ _ hxv, hframe x hxv hx]
+
+/-! ## 15. what is NOT proved about jumps -/
+
+mutual
+/-- the variables occurring in an expression -/
+def varRefs : SExpr → List VarRef
+  | .var v => [v]
+  | .unop _ e => varRefs e
+  | .binop _ a b => varRefs a ++ varRefs b
+  | .ternary c l r => varRefs c ++ varRefs l ++ varRefs r
+  | .switch cs => varRefsList cs
+  | _ => []
+def varRefsList : List SExpr → List VarRef
+  | [] => []
+  | c :: cs => varRefs c ++ varRefsList cs
+end
+
+def tyOfRTy : RTy → Ty
+  | .int => .int
+  | .float => .float
+
+/-- every variable of the condition holds a value of its own type and is below the temp counter -/
+def CondTyped (σ : Store) (g : Nat) : JCond → Prop
+  | .expr e => ∀ v ∈ varRefs e, (σ v.name).ty = tyOfRTy v.inherent ∧ below g v.name
+  | .predec v _ => (σ v.name).ty = tyOfRTy v.inherent ∧ below g v.name
+
+/-- float comparisons behave like an order (no NaN among the values compared): what `negate_comparison` needs -/
+def FloatsOrdered (F : FloatOps) : Prop :=
+  ∀ a b, F.le a b = !F.lt b a
+
+/-- **conditional jumps as C02 states them** (NOT proved): ANY condition that the source evaluates - float
+comparisons (given `FloatsOrdered`; `nan_negation_witness` shows that it cannot be dropped), casts and sigils,
+difficulty switches and ternaries inside the condition -, from stores typed like their variables.
+`lowerCondJump_sound` proves the integer fragment. -/
+def lowerCondJump_full : Prop :=
+  ∀ (F : FloatOps) (I : JIntrinsics) (db ab diff g lg : Nat) (t : Int) (mask : Nat) (kw : Kw) (c : JCond) (tgt : Goto)
+    (code : List JStmt) (g' lg' : Nat) (s : JM) (taken : Bool) (σ' : Store),
+    maskOn mask diff = true → FloatsOrdered F → CondTyped s.m.store g c → s.m.time = t → tgt.l < lg →
+    evalCond F diff s.m.store c = .ok (taken, σ') →
+    lowerCondGoto I db ab g lg t mask kw c tgt = .ok (code, g', lg') →
+    ∃ s', execFrag F diff .run code s = .ok (exitIf (kw.takes taken) tgt, s') ∧
+      (∀ x, below g x → s'.m.store x = σ' x) ∧ s'.m.log = s.m.log ∧ s'.m.time = s.m.time
+
+/-- **ternaries as C02 states them** (NOT proved): `v op= e` for any assignment operator and any expression `e`
+containing ternaries anywhere (in operands of operators, in conditions, in branches, in call arguments, in
+difficulty switches), of either type.  `lowerTernary_sound` proves `v = c ? l : r` for integer `c`, `l`, `r`
+without further ternaries. -/
+def lowerTernary_full : Prop :=
+  ∀ (F : FloatOps) (I : JIntrinsics) (db ab diff g lg : Nat) (t : Int) (mask : Nat) (v : VarRef) (op : AssignOp) (e : SExpr)
+    (code : List JStmt) (g' lg' : Nat) (s : JM) (msrc : Machine),
+    maskOn mask diff = true → FloatsOrdered F → CondTyped s.m.store g (.expr (.binop .add (.var v) e)) → s.m.time = t →
+    runAssign F diff s.m v op e = .ok msrc →
+    lowerAssignJ I db ab g lg t mask v op e = .ok (code, g', lg') →
+    ∃ s', execFrag F diff .run code s = .ok (.fall, s') ∧ (∀ x, below g x → s'.m.store x = msrc.store x) ∧
+      s'.m.log = msrc.log ∧ s'.m.time = msrc.time
+
+/-! ## 16. the hypotheses are satisfiable; the NaN witness -/
+
+/-- a native conditional jump for every comparison, both counting jumps -/
+def jNative : JIntrinsics := ⟨allNative, some 1, fun _ _ => some 4, fun _ => none, fun _ => none, fun _ => some 5⟩
+/-- no single conditional jump: the cmp + jmp pair; arithmetic through the fallbacks; only `--x > 0` -/
+def jTwoPart : JIntrinsics :=
+  ⟨fallbacksOnly, some 1, fun _ _ => none, fun _ => some 6, fun _ => some 7, fun k => if k = .gt then some 5 else none⟩
+
+/-- `(A < B * -(A + 1) && !(A == 3)) || B` -/
+def sampleCond : SExpr :=
+  .binop .lor
+    (.binop .land (.binop .lt (.var rA) (.binop .mul (.var rB) (.unop .neg (.binop .add (.var rA) (.litI 1)))))
+      (.unop .not (.binop .eq (.var rA) (.litI 3))))
+    (.var rB)
+
+example : IntOnly sampleCond := by simp [sampleCond, IntOnly, rA, rB, VarRef.readTy]
+example : exprBelow 100 sampleCond := by simp [sampleCond, exprBelow, below, rA, rB]
+example : CondOK 100 (.expr sampleCond) :=
+  ⟨by simp [sampleCond, IntOnly, rA, rB, VarRef.readTy], by simp [sampleCond, exprBelow, below, rA, rB]⟩
+example : CondOK 100 (.predec rA .gt) := rfl
+
+def shapeOf : Outcome (List JStmt × Gen × Nat) → Option (Nat × Gen × Nat)
+  | .ok (c, g, lg) => some (c.length, g, lg)
+  | _ => none
+
+def exitOf : Outcome (Exit × JM) → Option Exit
+  | .ok (e, _) => some e
+  | _ => none
+
+def takenOf : Outcome (Bool × Store) → Option Bool
+  | .ok (b, _) => some b
+  | _ => none
+
+def codeOf : Outcome (List JStmt × Gen × Nat) → List JStmt
+  | .ok (c, _, _) => c
+  | _ => []
+
+def all7 : JM := ⟨⟨fun _ => .int 7, [], 0⟩, none⟩
+
+/-- the lowering succeeds under both tables and uses one temporary; `if` needs one skip label (for the `&&`),
+`unless` two (the `||` is then the hard case as well) -/
+example : shapeOf (lowerCondGoto jNative 255 0 100 1000 0 255 .kif (.expr sampleCond) ⟨7, none⟩) = some (10, 101, 1001) := by
+  decide +kernel
+example : shapeOf (lowerCondGoto jTwoPart 255 0 100 1000 0 255 .kunless (.expr sampleCond) ⟨7, some 30⟩) = some (15, 101, 1002) := by
+  decide +kernel
+/-- from the store "everything is 7" the condition is 7 (true): `if` jumps to label 7, `unless` falls through -/
+example : takenOf (evalCond someFloats 0 all7.m.store (.expr sampleCond)) = some true := by decide +kernel
+example : exitOf (execFrag someFloats 0 .run (codeOf (lowerCondGoto jNative 255 0 100 1000 0 255 .kif (.expr sampleCond) ⟨7, none⟩)) all7) =
+    some (.jump 7 none) := by decide +kernel
+example : exitOf (execFrag someFloats 0 .run (codeOf (lowerCondGoto jTwoPart 255 0 100 1000 0 255 .kunless (.expr sampleCond) ⟨7, some 30⟩)) all7) =
+    some .fall := by decide +kernel
+/-- `unless (--A > 0) goto 7` from A = 7: the counter becomes 6, no jump -/
+example : exitOf (execFrag someFloats 0 .run (codeOf (lowerCondGoto jTwoPart 255 0 100 1000 0 255 .kunless (.predec rA .gt) ⟨7, none⟩)) all7) =
+    some .fall := by decide +kernel
+/-- `A = (A < B || !B) ? A / (B - 7) : A * B + 1` from "everything is 7": the condition is false, the first branch
+(which divides by zero) is not evaluated -/
+def sampleTernary : SExpr :=
+  .ternary (.binop .lor (.binop .lt (.var rA) (.var rB)) (.unop .not (.var rB)))
+    (.binop .div (.var rA) (.binop .sub (.var rB) (.litI 7)))
+    (.binop .add (.binop .mul (.var rA) (.var rB)) (.litI 1))
+example : shapeOf (lowerAssignJ jTwoPart 255 0 100 1000 0 255 rA .set sampleTernary) = some (15, 101, 1003) := by decide +kernel
+
+def valueOf : Outcome Value → Option Int32
+  | .ok (.int n) => some n
+  | _ => none
+example : valueOf (evalS someFloats 0 all7.m.store sampleTernary) = some 50 := by decide +kernel
+
+/-- all comparisons false: every float is a NaN -/
+def fA : VarRef := ⟨.reg 1010, none, .float⟩
+def fB : VarRef := ⟨.reg 1011, none, .float⟩
+def allNaN : JM := ⟨⟨fun _ => .float 0x7FC00000, [], 0⟩, none⟩
+
+/-- **the NaN witness**: `unless (A > B) goto 7` where the comparisons of `A` and `B` are all false (NaN): the
+source jumps (`A > B` is false), the emitted `if (A <= B) goto 7` does not.  Negated float comparisons are
+sound only without NaN (`FloatsOrdered`); this is the open finding
+`float-comparison-negated-by-compiler-sees-nan`. -/
+theorem nan_negation_witness :
+    takenOf (evalCond someFloats 0 allNaN.m.store (.expr (.binop .gt (.var fA) (.var fB)))) = some false ∧
+    Kw.kunless.takes false = true ∧
+    exitOf (execFrag someFloats 0 .run
+      (codeOf (lowerCondGoto jNative 255 0 100 1000 0 255 .kunless (.expr (.binop .gt (.var fA) (.var fB))) ⟨7, none⟩)) allNaN) =
+      some .fall := by
+  refine ⟨by decide +kernel, rfl, by decide +kernel⟩
+
+/-- **a jump instruction without a time argument loses the explicit time** (`JumpArgOrder::Loc`, e.g. TH06 ANM
+`ins_5`): `goto L @ t` and `goto L` are encoded identically, so the written instruction cannot behave like the
+source `goto L @ t` unless `t` happens to be the time of `L`.  `populate_time_args` drops the time without a
+diagnostic (finding `explicit-jump-time-dropped-when-jump-has-no-time-argument`); the theorems above are about
+the lowered stream BEFORE this encoding, where the time is still there. -/
+theorem loc_order_drops_time (l : Nat) (t : Int) : jumpArgs .loc l (some t) = jumpArgs .loc l none := rfl
+
+/-- with a time argument the two are different instructions (so the loss is specific to `Loc`) -/
+example : jumpArgs .locTime 3 (some 10) ≠ jumpArgs .locTime 3 none := by simp [jumpArgs]
 
 end TruthModel.C02
